@@ -3,11 +3,11 @@ package main
 // Evaluation of contract expressions over executor states.
 
 import (
-	"os"
 	"fmt"
 	"go/constant"
 	"go/types"
 	"math/big"
+	"os"
 	"strconv"
 	"strings"
 )
@@ -15,18 +15,18 @@ import (
 type TypeV struct{ T types.Type }
 
 type EvalCtx struct {
-	e      *Engine
-	st     *State
-	old    *State
-	bind   map[string]Value
-	pkg    *types.Package
-	setVar func(name string, v Value) bool
-	errs   *[]string
-	fnKey  string
-	noVars bool
-	nerr   *int
+	e       *Engine
+	st      *State
+	old     *State
+	bind    map[string]Value
+	pkg     *types.Package
+	setVar  func(name string, v Value) bool
+	errs    *[]string
+	fnKey   string
+	noVars  bool
+	nerr    *int
 	lastErr *string
-	pend   *[]pendingFork // conditional strong updates to be handled by forking (applyContract)
+	pend    *[]pendingFork // conditional strong updates to be handled by forking (applyContract)
 }
 
 type pendingFork struct{ P, Q Expr }
